@@ -20,27 +20,49 @@ pub fn big_limit(_seed: u64) -> usize {
     })
 }
 
-/// bounded sanity sweep in the claimed domain: never more than `limit` admissions between two window starts
+/// bounded sweep, also outside the domain of the Kani step proof (durations that are not whole seconds): for one key and random
+/// arrival times, never more than `limit` admissions between two consecutive window starts and never more than 2 * limit within any
+/// interval of length `duration`; a key that was idle for 2 * duration is admitted again
 pub fn sweep(seed: u64) -> usize {
     let rt = tokio::runtime::Builder::new_current_thread().enable_all().start_paused(true).build().expect("rt");
     let mut found = 0;
     rt.block_on(async {
         let mut x = seed.wrapping_mul(0x9E3779B97F4A7C15) | 1;
         for limit in [1usize, 2, 3, 7, 100] {
-            for dsecs in [1u64, 10, 3600] {
-                let mut rl: RateLimiter<u8> = RateLimiter::new(Duration::from_secs(dsecs), limit);
+            for dms in [100u64, 500, 999, 1000, 1500, 2500, 10_000, 3_600_000] {
+                let d = Duration::from_millis(dms);
+                let mut rl: RateLimiter<u8> = RateLimiter::new(d, limit);
+                // reference bookkeeping: the window of the key starts with its first attempt and restarts with the first attempt
+                // that comes at least `duration` after the current start
+                let start = tokio::time::Instant::now();
+                let mut window_start: Option<Duration> = None;
                 let mut in_window = 0usize;
-                let mut since_start = Duration::ZERO;
-                for _ in 0..2000 {
+                let mut admitted_at: Vec<Duration> = vec![];
+                let mut last_attempt: Option<Duration> = None;
+                for _ in 0..1500 {
                     x ^= x << 13; x ^= x >> 7; x ^= x << 17;
-                    let step = Duration::from_millis((x % (dsecs * 400)).max(0));
-                    tokio::time::advance(step).await;
-                    since_start += step;
-                    if since_start >= Duration::from_secs(dsecs) { in_window = 0; since_start = Duration::ZERO; }
-                    if rl.enqueue(7) {
+                    // mostly short gaps, sometimes a long pause
+                    let step_ms = if x % 53 == 0 { dms * 2 + (x >> 8) % (dms + 1) } else { (x >> 8) % (dms * 2 / 5 + 1) };
+                    tokio::time::advance(Duration::from_millis(step_ms)).await;
+                    let t = tokio::time::Instant::now() - start;
+                    match window_start {
+                        Some(w) if t - w < d => {}
+                        _ => { window_start = Some(t); in_window = 0; }
+                    }
+                    let idle = last_attempt.map(|l| t - l >= 2 * d).unwrap_or(true);
+                    last_attempt = Some(t);
+                    let ok = rl.enqueue(7);
+                    if idle && !ok {
+                        println!("REPRODUCED limiter limit={limit} duration={dms}ms: a key that made no attempt for two durations was rejected");
+                        found += 1;
+                        return;
+                    }
+                    if ok {
                         in_window += 1;
-                        if in_window > 2 * limit {
-                            println!("REPRODUCED limiter limit={limit} duration={dsecs}s: {in_window} admissions within one duration");
+                        admitted_at.push(t);
+                        let in_interval = admitted_at.iter().filter(|a| t - **a < d).count();
+                        if in_window > limit || in_interval > 2 * limit {
+                            println!("REPRODUCED limiter limit={limit} duration={dms}ms: {in_window} admissions since the window start, {in_interval} within one duration (bounds: {limit} and {})", 2 * limit);
                             found += 1;
                             return;
                         }
